@@ -770,7 +770,7 @@ theorem removeStates_size_le (M : Machine) (keep : Array Bool) : (M.removeStates
     _ = M.states.size := List.length_range
 
 /-- **The removal theorem at the level of one `feed` / `end()` dispatch with each machine's own budget**: if the
-    smaller machine's call does not run out of its (smaller) budget — `noSpinCheck`, C04 — it is the original machine's
+    smaller machine's call does not run out of its (smaller) budget on any path of its tree, it is the original machine's
     call with successor states renumbered. -/
 theorem C05_remove_states_call (M : Machine) (keep : Array Bool) (hC : M.closedUnder keep = true)
     (o : SemOpts) (s : Int) (x : Nat) (hs : goodB M keep s = true)
